@@ -150,7 +150,17 @@ pub fn run_one(cfg: &MemCfg, prm: &ConcParams, seed: u64) -> Result<Vec<J>, Stri
                         }
                     }
                     9 => match rng.below(3) {
-                        0 => cache.clear(),
+                        0 => {
+                            // clear = a remove of every key that takes effect somewhere inside the call
+                            let ids: Vec<u64> = prm.keys.iter().map(|_| sh.id.fetch_add(1, Ordering::SeqCst)).collect();
+                            for (kk, wid) in prm.keys.iter().zip(ids.iter()) {
+                                log.push(ev(&sh, json!({"e": "iw", "id": wid, "k": kk, "v": 0})));
+                            }
+                            cache.clear();
+                            for wid in ids.iter() {
+                                log.push(ev(&sh, json!({"e": "rw", "id": wid})));
+                            }
+                        }
                         1 => cache.evict_all(),
                         _ => {
                             let _ = cache.resize(*rng.pick(&prm.caps));
